@@ -79,6 +79,9 @@ class ConfigNodeMeta(NamespaceableMeta):
                             del kwargs[arg_name]
                             continue
                         setattr(value, '_' + arg_name, kwargs[arg_name])
+                if kwargs.get('safe') is not None:
+                    # an explicit safety flag for an already built node (e.g. '!unsafe' written on an f-string) can only restrict it
+                    value._safe = notnone_or(value._safe, True) and kwargs['safe']
                 if 'priority' in kwargs and value._is_composed():
                     # an already-built subtree inherits the priority at every depth, not only in its root
                     for descendant in value.ayns.nodes():
